@@ -46,3 +46,33 @@ def check(prog, rep):
     ddl_facts(prog, rep)
     idalloc_memory(prog, rep)
     bucket_insert(prog, rep)
+
+
+SQ = "aw_datastore/storages/sqlite.py"
+PW = "aw_datastore/storages/peewee.py"
+ME = "aw_datastore/storages/memory.py"
+DS = "aw_datastore/datastore.py"
+VARIANTS = [
+    ("B memory stores a shallow copy (original defect)", ME, "            event = copy.deepcopy(event)\n            if self.db[bucket]:", "            event = copy.copy(event)\n            if self.db[bucket]:", "OWN-IN"),
+    ("B memory returns the stored event (original defect)", ME, "            # Hand out a copy, the stored event must not be reachable by the caller\n            event = copy.deepcopy(event)\n", "", "OWN-OUT"),
+    ("B memory get_events shallow list copy", ME, "        return copy.deepcopy(events)", "        return list(events)", "OWN-OUT"),
+    ("B memory get_event hands out the stored object", ME, "        event = self._get_event(bucket_id, event_id)\n        return copy.deepcopy(event)", "        event = self._get_event(bucket_id, event_id)\n        return event", "OWN-OUT"),
+    ("B memory metadata handed out (original defect)", ME, "            return copy.deepcopy(self._metadata[bucket_id])", "            return self._metadata[bucket_id]", "OWN-OUT"),
+    ("B memory keeps the caller's data dict (original defect)", ME, '            "data": copy.deepcopy(data) if data else {},', '            "data": data or {},', "OWN-IN"),
+    ("B memory replace stores the caller's event", ME, "            event = copy.deepcopy(event)\n            event.id = event_id", "            event.id = event_id", "OWN-IN"),
+    ("B sqlite caches the last inserted event", SQ, "        event.id = c.lastrowid\n        self.conditional_commit(1)", "        event.id = c.lastrowid\n        self._last_inserted = event\n        self.conditional_commit(1)", "OWN-IN"),
+    ("B sqlite memoised JSON decoding", SQ, "def _rows_to_events(rows: Iterable) -> List[Event]:", "from functools import lru_cache\n\n\n@lru_cache(maxsize=4096)\ndef _loads(s):\n    return json.loads(s)\n\n\ndef _rows_to_events(rows: Iterable) -> List[Event]:", "ok"),
+    ("B sqlite memoised JSON decoding used", SQ, "        data = json.loads(row[3])\n", "        data = _loads_cached(row[3])\n", ["CODEC"]),
+    ("B sqlite write scale in milliseconds at one site", SQ, "    def replace_last(self, bucket_id, event):\n        starttime = event.timestamp.timestamp() * 1000000", "    def replace_last(self, bucket_id, event):\n        starttime = event.timestamp.timestamp() * 1000", "CODEC"),
+    ("B sqlite decoder swaps start and end", SQ, "        starttime = datetime.fromtimestamp(row[1] / 1000000, timezone.utc)\n        endtime = datetime.fromtimestamp(row[2] / 1000000, timezone.utc)", "        starttime = datetime.fromtimestamp(row[2] / 1000000, timezone.utc)\n        endtime = datetime.fromtimestamp(row[1] / 1000000, timezone.utc)", "CODEC"),
+    ("B sqlite endtime without the start", SQ, "    def replace(self, bucket_id, event_id, event) -> bool:\n        starttime = event.timestamp.timestamp() * 1000000\n        endtime = starttime + (event.duration.total_seconds() * 1000000)", "    def replace(self, bucket_id, event_id, event) -> bool:\n        starttime = event.timestamp.timestamp() * 1000000\n        endtime = event.duration.total_seconds() * 1000000", "CODEC"),
+    ("B sqlite select column order changed", SQ, "            SELECT id, starttime, endtime, datastr\n            FROM events\n            WHERE bucketrow = (SELECT rowid FROM buckets WHERE id = ?) AND id = ?", "            SELECT id, endtime, starttime, datastr\n            FROM events\n            WHERE bucketrow = (SELECT rowid FROM buckets WHERE id = ?) AND id = ?", "CODEC"),
+    ("B peewee bulk insert stores duration as timedelta", PW, '                "duration": event.duration.total_seconds(),\n                "datastr": json.dumps(event.data),\n            }', '                "duration": event.duration,\n                "datastr": json.dumps(event.data),\n            }', "CODEC"),
+    ("B peewee replace forgets the data", PW, "        e = self._get_event(bucket_id, event_id)\n        e.timestamp = event.timestamp\n        e.duration = event.duration.total_seconds()\n        e.datastr = json.dumps(event.data)\n", "        e = self._get_event(bucket_id, event_id)\n        e.timestamp = event.timestamp\n        e.duration = event.duration.total_seconds()\n", "CODEC"),
+    ("B peewee json emits duration as Decimal", PW, '            "duration": float(self.duration),', '            "duration": self.duration,', "CODEC"),
+    ("B memory id from the event count", ME, "                event.id = max(int(e.id or 0) for e in self.db[bucket]) + 1", "                event.id = len(self.db[bucket])", "IDALLOC"),
+    ("B Bucket.insert returns the caller's event", DS, "            inserted = self.ds.storage_strategy.insert_one(self.bucket_id, events)", "            self.ds.storage_strategy.insert_one(self.bucket_id, events)\n            inserted = events", "INSERT-PATHS"),
+    ("OK deepcopy imported by name", ME, "        return copy.deepcopy(events)", "        from copy import deepcopy\n\n        return deepcopy(events)", "ok"),
+    ("OK metadata rebuilt from deep copies", ME, "            return copy.deepcopy(self._metadata[bucket_id])", "            return {k: copy.deepcopy(v) for k, v in self._metadata[bucket_id].items()}", "ok"),
+    ("OK locals renamed in the sqlite writer", SQ, "    def replace_last(self, bucket_id, event):\n        starttime = event.timestamp.timestamp() * 1000000\n        endtime = starttime + (event.duration.total_seconds() * 1000000)\n        datastr = json.dumps(event.data)", "    def replace_last(self, bucket_id, event):\n        t0 = event.timestamp.timestamp() * 1000000\n        starttime = t0\n        endtime = t0 + (event.duration.total_seconds() * 1000000)\n        datastr = json.dumps(event.data)", "ok"),
+]
